@@ -177,6 +177,12 @@ def plan(tier, seed):
     p.append(("totals", dict(skeleton="T3", n=2, drivers=["power", "job"])))
     p.append(("totals", dict(skeleton="T2c", n=2, drivers=["intens"])))
     p.append(("totals", dict(skeleton="TX", n=2, drivers=["intens"])))
+    # series with the same first hour and length but different hours (a time change in one of two zones)
+    p.append(("totals", dict(skeleton="TH", n=5, drivers=["intens"])))
+    # two distinct countries with the same name and short name on one network
+    p.append(("totals", dict(skeleton="T2c", n=2, drivers=["intens"], args={"same_names": True})))
+    p.append(("totals", dict(skeleton="TX", n=2, drivers=["intens"], args={"same_names": True})))
+    p.append(("totals", dict(skeleton="TH", n=5, drivers=["job"], args={"shared_journey": False})))
     # boundary values: jobs that store / transfer / need exactly nothing, storages with an initial volume and idle power
     zero = {"job2.data_stored": 0, "st2.base_storage_need": 2, "st2.idle_power": 5, "st.base_storage_need": 1, "job.data_transferred": 0}
     p.append(("totals", dict(skeleton="T5", n=2, drivers=["intens"], values=zero, args={"type1": "autoscaling", "type2": "serverless"})))
